@@ -34,15 +34,15 @@ PLAN = {
         vacuity=[("smp_mixed", [], "mark-all-sampled")],
     ),
     "C06": dict(
-        quick=[("att4", dict(cap=1500)), ("att4_c", dict(cap=800)), ("lit_attach_other", dict(cap=800)), ("twin4", dict(cap=600)), ("latt_deep", dict(cap=2000)), "att_mixed", "att_mixed_r", "dup:1",
+        quick=[("att4", dict(cap=1500)), ("att4_c", dict(cap=800)), ("lit_attach_other", dict(cap=800)), ("twin4", dict(cap=600)), ("latt_deep", dict(cap=2000)), "att_mixed", "att_mixed_r", "dup:1", "withline:1",
                ("stress:att4", dict(rounds=200, threads=6))],
         thorough=["att4", "att5", "att4_c", "lit_attach_other", "twin4", "latt_deep", "att_mixed", "att_mixed_r", "dup:1", ("sim_att", dict(cap=6000))],
         vacuity=[("att4", [], "drain-danglings")],
     ),
     "C07": dict(
         quick=["hostile4", ("notready4", dict(cap=600)), ("over5_d", dict(cap=500)), "extra:teardown", "extra:teardown_c", "extra:teardown_k1",
-               ("stress:hostile4", dict(rounds=150, threads=4))],
-        thorough=["hostile4", "hostile5", "notready4", "over5_d", "over5_c", "extra:teardown", "extra:teardown_c", "extra:teardown_k1"],
+               ("stress:hostile4", dict(rounds=150, threads=4)), "withline:1"],
+        thorough=["hostile4", "hostile5", "notready4", "over5_d", "over5_c", "extra:teardown", "extra:teardown_c", "extra:teardown_k1", "withline:1"],
         vacuity=[("hostile4", ["FixEmptyToken"]), ("hostile4", ["FixReentrant"]), ("hostile4", ["FixStackFull"]), ("over5_d", [], "force-blocks")],
     ),
     "C08": dict(
